@@ -15,17 +15,20 @@
 (***************************************************************************)
 EXTENDS Naturals, Sequences, FiniteSets, TLC
 
-CONSTANTS Modes, MediaSets, Bundles, Muxes, Ices, Latchings, Compats, Offerers,
+CONSTANTS Modes, MediaSets, Bundles, Muxes, Ices, Latchings, Compats, Offerers, Scheds,
           Deviations
 
 DeviationNames == {"SdesBeforeLocalAnswer",   \* Srtp answerer installs SDES keys before its own answer exists
-                   "EqualRoles"}              \* both sides take the same DTLS role
+                   "EqualRoles",              \* both sides take the same DTLS role
+                   "SctpNeedsStoredRemote"}   \* SCTP is only created if the remote description is already stored
 
 Sides == {"A", "B"}
 Other(s) == IF s = "A" THEN "B" ELSE "A"
 
+\* sched is not a configuration but a schedule of the application: "slowSetRemote" = the task that runs the offerer's
+\* set_remote_description(answer) is slow after it has started ICE (the description is stored late)
 Lattice == [mode : Modes, media : MediaSets, bundle : Bundles, mux : Muxes, ice : Ices,
-            latching : Latchings, compat : Compats, offerer : Offerers]
+            latching : Latchings, compat : Compats, offerer : Offerers, sched : Scheds]
 
 \* only what the configuration API documents as meaningful together
 Compatible(c) ==
@@ -36,6 +39,7 @@ Compatible(c) ==
           /\ "dc" \notin c.media
           /\ c.ice = "full"                       \* no ICE agent in the direct modes
           /\ (c.mode = "Srtp" => c.latching = FALSE)
+          /\ c.sched = "plain"
 
 VARIABLES cfg,
           sig,     \* [Sides -> signaling state]
@@ -97,13 +101,20 @@ SetLocalAnswer ==
     /\ ldesc' = [ldesc EXCEPT ![Ans] = TRUE]
     /\ UNCHANGED <<cfg, rdesc, ice, role, dtls, keys, sctp, chan, peer, dcGot, rtpGot>>
 
+\* set_remote_description(answer): signaling commit, DTLS role and ICE start come first, the description is stored at
+\* the end of the call - with a slow application task the transports can start in between
 SetRemoteAnswer ==
     /\ ldesc[Ans] /\ sig[Off] = "HaveLocalOffer"
     /\ sig' = [sig EXCEPT ![Off] = "Stable"]
-    /\ rdesc' = [rdesc EXCEPT ![Off] = TRUE]
+    /\ rdesc' = [rdesc EXCEPT ![Off] = (cfg.sched # "slowSetRemote")]
     /\ role' = [role EXCEPT ![Off] = IF IsWeb THEN (IF "EqualRoles" \in Deviations THEN "server" ELSE "client") ELSE @]
     /\ ice' = [ice EXCEPT ![Off] = IF IsWeb THEN "Checking" ELSE "Connected"]
     /\ UNCHANGED <<cfg, ldesc, dtls, keys, sctp, chan, peer, dcGot, rtpGot>>
+
+StoreRemoteAnswer ==
+    /\ sig[Off] = "Stable" /\ ldesc[Ans] /\ ~rdesc[Off] /\ role[Off] # "none"
+    /\ rdesc' = [rdesc EXCEPT ![Off] = TRUE]
+    /\ UNCHANGED <<cfg, sig, ldesc, ice, role, dtls, keys, sctp, chan, peer, dcGot, rtpGot>>
 
 -----------------------------------------------------------------------------
 (* transports *)
@@ -116,7 +127,10 @@ IceConnect(s) ==
 StartDtls(s) ==
     /\ IsWeb /\ ice[s] = "Connected" /\ role[s] # "none" /\ dtls[s] = "none"
     /\ dtls' = [dtls EXCEPT ![s] = "handshaking"]
-    /\ sctp' = [sctp EXCEPT ![s] = IF HasDc THEN "connecting" ELSE @]
+    \* the association is needed iff the negotiated descriptions have an application section: decided from the
+    \* remote description, or from the local one while the remote one is not stored yet
+    /\ sctp' = [sctp EXCEPT ![s] = IF HasDc /\ (rdesc[s] \/ (ldesc[s] /\ "SctpNeedsStoredRemote" \notin Deviations))
+                                   THEN "connecting" ELSE @]
     /\ UNCHANGED <<cfg, sig, ldesc, rdesc, ice, role, keys, chan, peer, dcGot, rtpGot>>
 
 \* the handshake needs one client and one server
@@ -171,7 +185,7 @@ RtpDelivered(s) ==
     /\ UNCHANGED <<cfg, sig, ldesc, rdesc, ice, role, dtls, keys, sctp, chan, peer, dcGot>>
 
 Next ==
-    \/ SetLocalOffer \/ SetRemoteOffer \/ SetLocalAnswer \/ SetRemoteAnswer
+    \/ SetLocalOffer \/ SetRemoteOffer \/ SetLocalAnswer \/ SetRemoteAnswer \/ StoreRemoteAnswer
     \/ \E s \in Sides : IceConnect(s) \/ StartDtls(s) \/ StartDirect(s) \/ WebConnected(s)
                         \/ DataDelivered(s) \/ RtpDelivered(s)
     \/ DtlsConnected \/ SctpUp \/ ChanOpen
